@@ -31,6 +31,9 @@ func checkC05(c *Ctx, r *Report) {
 	c05Leaf(c, r, a)
 	c05NilErr(c, r)
 	c04Narrow(c, r, "C05.NARROW", "CoerceOut", 6)
+	r.rule("C05.BASE", "strconv.ParseInt / ParseUint in output coercers: base is the constant 10")
+	c04Base(c, r, "C05.BASE", "CoerceOut")
+	c05Repr(c, r)
 	finiteRule(c, r, "C05.FINITE")
 	c05Kind(c, r)
 	c05Enum(c, r)
